@@ -34,7 +34,8 @@ func TestC18Build(t *testing.T) {
 	sub.Floor("bare-config", 0.15)
 	sub.NontrivialFloor(0.50)
 	sub.Floor("typ=int", 0.08)
-	sub.Floor("typ=float", 0.15)
+	sub.Floor("typ=float", 0.08)
+	sub.Floor("typ=float-exp", 0.03)
 	sub.Floor("typ=string", 0.05)
 	sub.Floor("str:dollar", 0.25)
 	sub.Floor("means:admin-token", 0.10)
